@@ -5,7 +5,12 @@ from .objs import mixture, builtin_mixtures
 
 def _mix(case):
     if 'builtin' in case: return dict(builtin_mixtures())[case['builtin']]
-    return mixture(case.get('env', {}), nr='two' if case.get('two_alphas') else 'one')
+    m = mixture(case.get('env', {}), nr='two' if case.get('two_alphas') else 'one')
+    if case.get('same_names') is not None:
+        # components are identified by position, never by label: two components carrying the same name (unnamed, or isomers under one label)
+        import attr
+        m = attr.evolve(m, first_component=attr.evolve(m.first_component, name=case['same_names']), second_component=attr.evolve(m.second_component, name=case['same_names']))
+    return m
 
 
 def uniquac_k1(T, mix, x):
@@ -83,6 +88,10 @@ def corpus(seed, n):
         for model in ('NRTL', 'UNIQUAC'):
             if model == 'UNIQUAC' and m.uniquac_params is None: continue
             out.append(dict(builtin=name, model=model, x=rng.uniform(0.05, 0.95), T=rng.uniform(280, 390), raoult=True))
+    for label in ('', 'butanol'):
+        env = dict(g12=rng.uniform(500, 4000), g21=rng.uniform(500, 4000), al12=0.3, M1=rng.uniform(18, 60), M2=rng.uniform(60, 150),
+                   vpa1=7.2, vpb1=-1750.0, vpc1=-38.0, vpa2=6.9, vpb2=-1250.0, vpc2=-52.0, ua12=50.0, ua21=-30.0, z=10)
+        out.append(dict(env=env, model='NRTL', same_names=label, x=rng.uniform(0.2, 0.8), T=rng.uniform(300, 360), raoult=True))
     while len(out) < n:
         env = dict(g12=rng.uniform(-3000, 6000), g21=rng.uniform(-3000, 6000), al12=rng.uniform(0.1, 0.6), al21=rng.uniform(0.1, 0.6), a12=rng.uniform(-1, 1), a21=rng.uniform(-1, 1),
                    M1=rng.uniform(18, 150), M2=rng.uniform(18, 150), r1=rng.uniform(0.9, 5), r2=rng.uniform(0.9, 5), q1=rng.uniform(0.9, 5), q2=rng.uniform(0.9, 5),
